@@ -301,6 +301,11 @@ def fit_case(draw, tier, kind, fd=False, negligible_x=False):
     easy = fam in ('exp1', 'exp', 'lin')
     opts['guess'] = 'default' if (easy and not fd and draw(st.integers(0, 2)) == 0) else 'near'
     opts['guess_fac'] = [draw(fl(0.93, 1.07)) for _ in range(npar)]
+    if kind == 'tls' and not fd and not negligible_x and draw(st.integers(0, 6)) == 0:
+        # a start far from the solution: the fit may legitimately give up (not judged), but whatever it returns as a
+        # result has to be a stationary point of the documented chi-square
+        opts['guess'] = 'far'
+        opts['guess_fac'] = [draw(st.sampled_from([8.0, 0.1, -1.0, 30.0, 0.0])) for _ in range(npar)]
     opts['x_form'] = draw(st.sampled_from(['list', 'array']))
     if members:
         opts['dict_rev'] = draw(st.booleans())
@@ -377,6 +382,8 @@ def guess(c):
     o = c.spec['opts']
     if o['guess'] == 'near':
         return [p * f for p, f in zip(c.spec['ptrue'], o['guess_fac'])]
+    if o['guess'] == 'far':
+        return [p * f + (1.0 if f == 0.0 else 0.0) for p, f in zip(c.spec['ptrue'], o['guess_fac'])]
     return None
 
 
@@ -424,8 +431,8 @@ def fit_exceptions(c, call):
         msg = str(e)
         if 'did not converge' in msg:
             raise Skip('minimiser reported non-convergence')
-        if c.spec['opts']['guess'] == 'default':
-            raise Skip('fit from the default start failed')
+        if c.spec['opts']['guess'] in ('default', 'far'):
+            raise Skip('fit from the %s start failed' % c.spec['opts']['guess'])
         raise
 
 
